@@ -182,6 +182,11 @@ def do_replay(prop: str, path: str) -> int:
         from .props import multigw
         multigw.replay(case)
         return 0
+    if "loops" in case:
+        # loads in a process with a past (C14): histories of several event loops on shared persistence paths
+        from .props import persist_loops
+        persist_loops.replay(case)
+        return 0
     if "interference" in case:
         from .props import codec_interference
         codec_interference.replay(case)
